@@ -170,7 +170,8 @@ public:
     // The converged singular values
     Vector singular_values() const
     {
-        Vector svals = m_eigs->eigenvalues().cwiseSqrt();
+        // A zero singular value can come back as a slightly negative eigenvalue of A'A or AA'
+        Vector svals = m_eigs->eigenvalues().cwiseMax(Scalar(0)).cwiseSqrt();
 
         return svals;
     }
